@@ -158,7 +158,8 @@ def _slice_bound(v, n):
     if ctx is None:
         raise HarnessError("symbolic slice bound outside a context")
     opts = [(-n, v.t <= -n)] + [(k, v.t == k) for k in range(-n + 1, n)] + [(n, v.t >= n)]
-    return ctx.decide(opts, label='slice')
+    ctx.keep.append(v.t)
+    return ctx.decide(opts, label='slice', memo_key=('s', v.t.get_id(), n))
 
 
 def _concretize_key(key, shape):
